@@ -430,9 +430,9 @@ class Verifier(Executor):
                     if out[0] in ("next", "continue"):
                         self.ghost_updates(s2, lc)
                         self.apply_hints(s2, lc.get("step_hints"), {})
-                        self.check_invariants(s2, lc, "inv-step", {}, line)
                         for lbl, clause in lc.get("step_ensures", []):
                             self.oblige(s2, "post", lbl, self.eval_spec(clause, s2, {}), tags=self.tags_for(lbl), line=line)
+                        self.check_invariants(s2, lc, "inv-step", {}, line)
                         if dec:
                             m1 = self.eval_measure(dec, s2)
                             self.oblige(s2, "term", "decreases", self.lex_less(m1, m0), tags={"C04"}, line=line)
